@@ -465,6 +465,59 @@ def certify_answers(pairs, label: str, stats: dict, broken: list, case=None, lim
     return bad
 
 
+def certify_milp_answers(pairs, label: str, stats: dict, broken: list, case=None, limit=3, max_bins=8, tol=1e-6):
+    """GLPK's answer for a captured mixed-integer *minimisation* problem vs the certified enumeration of its binary variables on the problem the
+    Lean builder produces: every leaf (binaries fixed) is certified infeasible or optimal through Prob.certInfeas / certOpt, the lower bound L is
+    accepted through Prob.certLeavesMin (certLeavesMin_bound), and L is attained by the best leaf (leaf_point_feasible)."""
+    import exact_lp
+    import lpcert
+    todo = [(l, g) for l, g in pairs if g.get("answer") and any(v[2] == "binary" for v in g["vars"].values())
+            and sum(v[2] == "binary" for v in g["vars"].values()) <= max_bins and g["dir"] == "min"][:limit]
+    bad = []
+    for line, got in todo:
+        lv = predicted([dict(line, want="leaves")])[0]
+        certs, best = [], None
+        F_ = lambda x: None if x is None else F(x)
+        ok = True
+        for d in lv["leaves"]:
+            if not d.get("closed"):
+                ok = False
+                break
+            lp = (d["n"], [(F_(a), F_(b)) for a, b in d["vb"]], [([F(c) for c in r[0]], F_(r[1]), F_(r[2])) for r in d["rows"]], [F(c) for c in d["obj"]])
+            res = exact_lp.solve(*lp)
+            if res[0] == "optimal":
+                val = -sum(c * x for c, x in zip(lp[3], res[1]))        # dense form maximises the negated objective
+                best = val if best is None else min(best, val)
+                certs.append({"kind": "optimal", "x": [lpcert.q(v) for v in res[1]], "y": [lpcert.q(v) for v in res[2]]})
+            elif res[0] == "infeasible":
+                certs.append({"kind": "infeasible", "y": [lpcert.q(v) for v in res[1]]})
+            else:
+                ok = False
+                break
+        if not ok:
+            continue
+        ans = got["answer"]
+        if best is None:
+            # every leaf exactly infeasible: numbers from a float solve can make that a matter of 1e-16 — not judged here
+            stats[label + " (milp undecided)"] = stats.get(label + " (milp undecided)", 0) + 1
+            continue
+        verdict = predicted([dict(line, want="certmilp", certs=certs, L=lpcert.q(best))])[0]
+        if not verdict.get("ok"):
+            raise RuntimeError(f"leaf certificates rejected by the Lean checker for {line['build']}")
+        stats[label + " (answers certified)"] = stats.get(label + " (answers certified)", 0) + 1
+        msg = None
+        if ans["status"] != "optimal":
+            msg = f"the solver reports {ans['status']} for a mixed-integer problem whose certified minimum is {float(best)}"
+        elif abs(ans["value"] - float(best)) > tol * (1 + abs(float(best))):
+            msg = f"the solver reports the minimum {ans['value']}, the certified minimum of the same mixed-integer problem is {float(best)}"
+        if msg:
+            bad.append(msg)
+            if len(broken) < 5:
+                broken.append({"kind": "assumption", "name": f"SolverOK: GLPK's answer for the mixed-integer problem of {label} (AuxM.Net.{line['build']})",
+                               "detail": [msg], "builder_call": {k: v for k, v in line.items() if k != "net"}, "net": line["net"], "case": case})
+    return bad
+
+
 def compare(pairs, label: str, stats: dict, broken: list, case=None):
     """Run the builder lines through the Lean driver and diff with what was captured.  Mismatches go to `broken` (a correspondence
     that no longer holds is not by itself a violation: the caller searches for a failing input)."""
@@ -501,6 +554,7 @@ def stage(ctx, plan, gen_spec, n_specs, build=None, certify=True):
     rng = random.Random(f"aux-{ctx.pid}-{ctx.seed}-{ctx.attempt}")
     stats, broken, errors, mism = {}, [], {}, []
     certified, budget = 0, (150 if ctx.tier == "quick" else 1500)
+    milp_done, milp_budget = 0, (8 if ctx.tier == "quick" else 80)
     for _ in range(n_specs):
         spec = gen_spec(rng)
         for label, fn in plan:
@@ -513,7 +567,11 @@ def stage(ctx, plan, gen_spec, n_specs, build=None, certify=True):
                     mism.append({"spec": spec, "label": label, "diff": bad[0]})
                 elif certify and certified < budget:
                     before = sum(v for k, v in stats.items() if k.endswith("(answers certified)"))
-                    wrong = certify_answers(pairs, label, stats, broken, case=spec, limit=4)
+                    wrong = certify_answers(pairs, label, stats, broken, case=spec, limit=4) or []
+                    if milp_done < milp_budget:
+                        m0 = stats.get(label + " (answers certified)", 0)
+                        wrong += certify_milp_answers(pairs, label, stats, broken, case=spec, limit=1, max_bins=(6 if ctx.tier == "quick" else 8)) or []
+                        milp_done += stats.get(label + " (answers certified)", 0) - m0
                     certified += sum(v for k, v in stats.items() if k.endswith("(answers certified)")) - before
                     if wrong:
                         mism.append({"spec": spec, "label": label, "diff": wrong})
@@ -531,7 +589,8 @@ def stage(ctx, plan, gen_spec, n_specs, build=None, certify=True):
                     mism.append({"spec": spec, "label": label, "diff": [f"raised {type(e).__name__}: {e}"]})
     ctx.broken += broken
     ctx.coverage["captured_problem_correspondence"] = {
-        "compared": {k: v for k, v in stats.items() if not k.endswith("(answers certified)")},
+        "compared": {k: v for k, v in stats.items() if not k.endswith(")")},
+        "milp_leaves_all_infeasible_in_exact_arithmetic": {k[:-len(" (milp undecided)")]: v for k, v in stats.items() if k.endswith("(milp undecided)")},
         "answers_certified": {k[:-len(" (answers certified)")]: v for k, v in stats.items() if k.endswith("(answers certified)")},
         "models": n_specs, "not_built": errors, "mismatches": len(mism),
         "rule": "whole solver problem predicted by the Lean builder (lean/CobraModel/Model/AuxProb.lean) vs the raw GLPK problem read at the "
